@@ -131,8 +131,7 @@ def main(pid, argv):
                     break
         if bad:
             nf += 1
-            if nf <= 3:
-                ck.fail("client-receive", line, bad, impl=il[:800], model=ml[:800])
+            ck.fail("client-receive", line, bad, impl=il[:800], model=ml[:800])
         elif il != ml:
             ck.tie_broken("client results differ from the model", line[:800], il[:400], ml[:400])
     ck.extra["failing_inputs_total"] = nf
